@@ -239,6 +239,11 @@ fn handle_on_connection(
                 tcb.state = TcpState::Established;
                 tcb.rcv_nxt = s.seq.wrapping_add(1);
                 tcb.snd_wnd = s.window;
+                // Our SYN is acknowledged: progress, like any other ACK
+                // of new data. Retransmits spent on the SYN must not
+                // count against the first data segment.
+                tcb.egress_since_ack = 0;
+                tcb.retx_attempts = 0;
                 (tcb.snd_nxt, tcb.rcv_nxt, advertised_window(recv_cap, 0))
             };
             wake_connect(k, fd);
@@ -271,6 +276,9 @@ fn handle_on_connection(
                 let tcb = k.lookup_mut(fd).unwrap().tcb.as_mut().unwrap();
                 tcb.state = TcpState::Established;
                 tcb.snd_wnd = s.window;
+                // Our SYN-ACK is acknowledged — see the SynSent arm.
+                tcb.egress_since_ack = 0;
+                tcb.retx_attempts = 0;
             }
             push_to_listener(k, fd, local);
         }
